@@ -647,7 +647,7 @@ pub fn main(tier: Tier, replay: Option<String>) -> i32 {
         eprintln!("unknown driver in replay");
         return 2;
     }
-    let cap_total = Duration::from_secs(tier.pick(45, 3000));
+    let cap_total = Duration::from_secs(tier.pick(270, 3000));
     let t0 = Instant::now();
     'outer: for (d, bounds) in &drivers {
         // sequential reference (also initialises every lazily built global before exploring)
